@@ -78,6 +78,10 @@ def op_menu(task):
         ops.append(('write', name))
     for (n1, _), (n2, _) in itertools.product(pl[:3], repeat=2):
         ops.append(('writelines', n1, n2))
+    # the sequence given as a one-shot iterable / a tuple instead of a list
+    ops.append(('writelines_iter', 'a', 'text'))
+    ops.append(('writelines_iter', 'empty', 'a'))
+    ops.append(('writelines_tuple', 'a', 'text'))
     if task['transport'].startswith('pty'):
         ops += [('sendcontrol', 'c'), ('sendeof',), ('sendintr',)]
         ops.append(('sendline0',))
@@ -137,11 +141,11 @@ def run_seq(task, seq, mode, big=False, ch=None, payload=None):
             elif k == 'sendline0':
                 sp.sendline()
                 want += encode(linesep if enc else linesep.encode('ascii'))
-            elif k == 'writelines':
+            elif k in ('writelines', 'writelines_iter', 'writelines_tuple'):
                 a, b = pl[op[1]], pl[op[2]]
                 if type(a) is not type(b):
                     continue
-                sp.writelines([a, b])
+                sp.writelines([a, b] if k == 'writelines' else (a, b) if k == 'writelines_tuple' else (x for x in (a, b)))
                 want += encode(a) + encode(b)
             elif k == 'sendcontrol':
                 sp.sendcontrol(op[1])
@@ -199,7 +203,7 @@ def run_task(task):
         ops = op_menu(task)
         maxlen = 2 if q else 3
         for n in range(1, maxlen + 1):
-            pool = ops if n < 3 else [o for o in ops if o[0] != 'writelines' and (len(o) < 2 or o[1] in ('a', 'text', 'c'))]
+            pool = ops if n < 3 else [o for o in ops if not o[0].startswith('writelines') and (len(o) < 2 or o[1] in ('a', 'text', 'c'))]
             for seq in itertools.product(pool, repeat=n):
                 obs, viol = run_seq(task, seq, mode)
                 acc.execs += 1
